@@ -24,6 +24,8 @@ type vxSym struct {
 	// EnFault: what the pwm_enable file does during this cycle: "" works; "refused" = every write fails with EPERM;
 	// "stuck" = the firmware holds the mode at 2 (writes are accepted and ignored)
 	EnFault string `json:"enFault,omitempty"`
+	// PwmFault "refused-once": the first write to the PWM file in this cycle fails (EIO-like), later writes succeed
+	PwmFault string `json:"pwmFault,omitempty"`
 }
 
 type vxCycCase struct {
@@ -71,6 +73,21 @@ func (fx *vxFix) vxCycle(s vxSym) vxCycObs {
 						return &env.Result{Err: env.ErrPerm(path)}
 					}
 					return &env.Result{}
+				}
+				return nil
+			}
+		}
+		if s.PwmFault != "" {
+			prev := fx.fs.Intercept
+			pwmPath := fx.dev.Pwm
+			refused := false
+			fx.fs.Intercept = func(kind, path string, value int) *env.Result {
+				if path == pwmPath && kind != "read" && !refused {
+					refused = true
+					return &env.Result{Err: env.ErrInval(path)}
+				}
+				if prev != nil {
+					return prev(kind, path, value)
 				}
 				return nil
 			}
@@ -190,6 +207,9 @@ func vxCycOracle(prop string, fx *vxFix, h *vxHist, s vxSym, o vxCycObs) [][2]st
 			}
 		}
 		// device must now show the mapped value (write skipped only when already there)
+		if s.PwmFault != "" {
+			break // a write was refused in this cycle: the device may still hold the previous value
+		}
 		ok := false
 		for _, k := range near {
 			if fx.pmap[k] == o.DevPwm {
@@ -284,6 +304,9 @@ func vxRLE(syms []vxSym) string {
 		}
 		if syms[i].EnFault != "" {
 			e += ",pwm_enable-" + syms[i].EnFault
+		}
+		if syms[i].PwmFault != "" {
+			e += ",pwm-write-" + syms[i].PwmFault
 		}
 		fmt.Fprintf(&b, "(%d,%d,%d%s)x%d ", syms[i].Curve, syms[i].Rpm, syms[i].DtMs, e, j-i)
 		i = j
@@ -387,6 +410,8 @@ func vxCycAlphabet(prop string, cfg vxCfg) []vxSym {
 	}
 	// a cycle in which the curve cannot be evaluated
 	a = append(a, vxSym{Curve: 128, Rpm: 1000, DtMs: 200, CurveErr: true})
+	// a cycle whose first PWM write is refused (whatever fan2go writes next must still be an output of its map)
+	a = append(a, vxSym{Curve: 100, Rpm: 1000, DtMs: 200, PwmFault: "refused-once"}, vxSym{Curve: 255, Rpm: 1000, DtMs: 200, PwmFault: "refused-once"})
 	// cycles in which the control mode cannot be set (both attempts of trySetManualPwm fail)
 	if cfg.Kind == "hwmon" && !cfg.NoEnable {
 		a = append(a, vxSym{Curve: 0, Rpm: 1000, DtMs: 200, EnFault: "refused"}, vxSym{Curve: 128, Rpm: 1000, DtMs: 200, EnFault: "stuck"})
